@@ -333,8 +333,8 @@ def e2e_family():
     sw("notnested", [("(and (not (or a b)) (layer l1))", [OP("and", OP("not", OP("or", K("a"), K("b"))), LY(1))], True),
                      ("", [], True)])
 
-    def fork(name, kbd_keys, trig_names, extra_keys):
-        kbd = "(defsrc a b c d)\n(deflayer l0 %s (fork 1 2 (%s)))\n" % (kbd_keys, " ".join(trig_names))
+    def fork(name, kbd_keys, trig_names, extra_keys, top=""):
+        kbd = "(defsrc a b c d)\n%s(deflayer l0 %s (fork 1 2 (%s)))\n" % (top, kbd_keys, " ".join(trig_names))
         params = {"kind": "fork", "sk": c("d"), "win": 6, "ageoff": 0, "cases": [],
                   "trig": [c(t) for t in trig_names], "left": c("1"), "right": c("2"), "acs": [c("1"), c("2")],
                   "lk": 0, "ll": 0}
@@ -342,6 +342,10 @@ def e2e_family():
     fork("fork_mods", "a lsft c", ["a", "lsft"], [])       # b outputs lsft: a trigger
     fork("fork_remap", "z b a", ["a"], [])                  # physical a outputs z (no trigger), physical c outputs a
     fork("fork_chord", "S-x b c", ["lsft", "c"], [])        # a outputs lsft+x
+    # "currently active" includes keys held by a running macro and by a virtual key, not only physical keys
+    fork("fork_macro", "(macro S-(x 30 y)) b c", ["lsft"], [])
+    fork("fork_macro2", "(macro C-(x 45)) (macro y 3 z) c", ["lctl", "z"], [])
+    fork("fork_vkey", "(on-press press-vkey v) (on-press release-vkey v) c", ["lsft"], [], top="(defvirtualkeys v lsft)\n")
     return fam
 
 
